@@ -61,6 +61,8 @@ class Ctx:
         self.pending = []
         self.float_mode = False
         self.max_paths = None
+        self.forced_global = {}
+        self.forced_path = {}
 
     def assume(self, b):
         if isinstance(b, bool):
@@ -150,6 +152,11 @@ class Ctx:
         tag = b.hash()
         c = self._next("d", 2, tag)
         if c is None:
+            bid = b.get_id()
+            hit = self.forced_global.get(bid) or self.forced_path.get(bid)
+            if hit is not None:
+                self.trace.append(("f", 0 if hit[1] else 1, tag))
+                return hit[1]
             t_ok = self.feasible(b)
             f_ok = self.feasible(z3.Not(b)) if t_ok else True
             if t_ok and f_ok:
@@ -159,6 +166,7 @@ class Ctx:
                 self.pc.append(b)
                 return True
             v = bool(t_ok)
+            (self.forced_path if self.pc else self.forced_global)[bid] = (b, v)
             self.trace.append(("f", 0 if v else 1, tag))
             return v
         kind = self.prefix[len(self.trace)][0]
@@ -232,6 +240,7 @@ class Ctx:
             self.trace = []
             self.pc = []
             self.probs = []
+            self.forced_path = {}
             if before_path is not None:
                 before_path()
             try:
